@@ -142,6 +142,17 @@ func VerifC02_Chain() {
 	if vrt.Tier() == 1 {
 		ls = append(ls, "1s:3s,3s:9s,9s:18s", "1s:4s,2s:10s,10s:30s")
 	}
+	vrtC02Chain(ls)
+}
+
+// VerifC02_Write2: the same write-through obligation on 2-level layouts whose coarser ring is
+// barely longer than the finer one (coarser retention <= finer retention + coarser step - 2),
+// where the oldest acceptable finer point falls into the oldest coarser interval.
+func VerifC02_Write2() {
+	vrtC02Chain([]string{"1s:5s,3s:6s", "1s:2s,2s:4s"})
+}
+
+func vrtC02Chain(ls []string) {
 	txt := ls[vrt.Choose("layout", len(ls))]
 	list, _ := ParseArchiveInfoList(txt)
 	m := AggregationMethod(1 + vrt.Choose("method", 6))
